@@ -88,6 +88,9 @@ func TestC10NeverWedges(t *testing.T) {
 				h.App.ReadBig = func(int) bool { return false }
 				cur := h.Current()
 				m := h.brokerSend(2, size+300)
+				if m == nil {
+					h.Failf("VERIF-INFRA: no accepted connection right after connect")
+				}
 				h.App.Step()
 				h.SettleReader("ownership taken")
 				var dup []byte
